@@ -5,4 +5,7 @@ MC_Procs3 == {1, 2, 3}
 MC_SVerSame == [p \in {1, 2, 3} |-> 1]
 MC_SVerMixed == [p \in {1, 2, 3} |-> IF p = 3 THEN 2 ELSE 1]
 MC_SVerMixed2 == [p \in {1, 2, 3} |-> IF p = 2 THEN 2 ELSE 1]
+\* one old-version process, two new-version processes (a second new-version process can trust the
+\* stamp the first one wrote)
+MC_SVerMixed3 == [p \in {1, 2, 3} |-> IF p = 1 THEN 1 ELSE 2]
 ====
